@@ -277,7 +277,18 @@ def one_split(ctx, Network, A, w, W, directed, v, p, cid, measures,
             form = str(ru.choice(["dense", "dense", "csr", "zeros"]))
             if form != "dense" and n >= 2:
                 ctx.count("original_from_sparse:" + form)
-            n0 = mk(Network, A, w, W, directed, form if n >= 2 else "dense")
+            # the node weights as the caller's own array: float64 (refilled
+            # by the caller afterwards) or float32 when that is exact
+            wg = np.array(w, dtype=np.float64)
+            w32 = wg.astype(np.float32)
+            if ru.random() < 0.4 and np.array_equal(w32.astype(float), wg):
+                wg = w32
+                ctx.count("node_weights_given_as_float32")
+            n0 = mk(Network, A, wg, W, directed, form if n >= 2 else "dense")
+            if ru.random() < 0.4:
+                wg *= 2.5
+                wg += 1.0
+                ctx.count("node_weight_array_refilled_by_caller")
         if W is not None and ru.random() < 0.25:
             # a copy of the original is taken and given other link weights
             # (and node weights) after keyed measures were queried: the
